@@ -52,6 +52,17 @@ ASSUME CrcWidth(<<3201>>) = 12 /\ CrcWidth(<<4660, 22136>>) = 31 /\ CrcWidth(<<7
 \* the top bytes of the CRC-32 table are pairwise different
 ASSUME {CrcTopByte(Crc32Table[i], 32) : i \in 1..256} = 0..255
 
+\* run-length evaluation (affine powers): known answers frozen from zlib.crc32 at authoring time
+\*   zlib.crc32(bytes(2^20) + b'a' + b'\xff' * 70000) = 0xD77B7C98;  zlib.crc32(bytes(100) + b'\x07' + b'\xff' * 33) = 0xE594A72A
+ASSUME Crc32Runs(<<<<0, 1048576>>, <<97, 1>>, <<255, 70000>>>>) = W32(55163, 31896)
+ASSUME Crc32Runs(<<<<0, 100>>, <<7, 1>>, <<255, 33>>>>) = W32(58772, 42794)
+ASSUME Crc32Runs(<<>>) = W32(0, 0) /\ Crc32Runs(<<<<49,1>>,<<50,1>>,<<51,1>>,<<52,1>>,<<53,1>>,<<54,1>>,<<55,1>>,<<56,1>>,<<57,1>>>>) = W32(52212, 14630)
+\* an affine power is the repeated byte step, on a 64-bit and a 12-bit register, run lengths around the switch-over and a power of two
+ASSUME LET P == W64(51564, 22421, 55175, 3906)  r == <<1, 2, 3, 32768>> IN
+       \A n \in {0, 1, 12, 13, 16, 17, 100} : CrcRegRuns(P, <<<<200, n>>, <<0, 13>>>>, r) = CrcRegBitwise(P, RunsExpand(<<<<200, n>>, <<0, 13>>>>), r)
+ASSUME \A n \in {13, 64, 129} : CrcRegRuns(<<3201>>, <<<<255, n>>>>, <<4095>>) = CrcRegBitwise(<<3201>>, RunsExpand(<<<<255, n>>>>), <<4095>>)
+ASSUME RunsCanonical(<<<<0, 5>>, <<1, 1>>, <<0, 2>>>>) /\ ~RunsCanonical(<<<<0, 5>>, <<0, 1>>>>) /\ ~RunsCanonical(<<<<3, 0>>>>)
+
 \* CRC-32 facts: check value, entries of zlib's crc_table, residue
 ASSUME Crc32Poly = <<33568, 60856>>                                                         \* 0xEDB88320
 ASSUME Crc32(<<49,50,51,52,53,54,55,56,57>>) = W32(52212, 14630)                            \* 0xCBF43926
